@@ -45,3 +45,17 @@ Proof.
   exists [2; 1; 1]%nat. split; [vm_compute; discriminate|].
   exists 1%nat, 0%nat. vm_compute. split; repeat constructor.
 Qed.
+
+(* C17 (repaired by a fix: commit): the unguarded comparison of result values broadcasts like
+   numpy.allclose and RAISES on incompatible lengths, where the guarded one answers "different" *)
+From SKC Require Import Model.Diff.
+Fixpoint allclose_unguarded (t : tol) (a b : list Q) : option bool :=
+  match a, b with
+  | [], [] => Some true
+  | x :: ta, y :: tb => match allclose_unguarded t ta tb with
+                        | Some r => Some (close1 t x y && r) | None => None end
+  | _, _ => None      (* ValueError: operands could not be broadcast together *)
+  end.
+Theorem result_diff_broadcast_refuted :
+  exists t a b, allclose_unguarded t a b = None /\ allclose t a b = false.
+Proof. exists exact, [1; 2; 3], [1; 2]. split; reflexivity. Qed.
